@@ -125,6 +125,7 @@ func runCheck(o *checkOpts) int {
 	var funcsUnder []string
 	trusted := map[string]bool{}
 	var missing []string
+	anyDep := false
 	budget := 10
 	if o.tier == "thorough" {
 		budget = 60
@@ -165,6 +166,9 @@ func runCheck(o *checkOpts) int {
 			continue
 		}
 		fr := w.lowerFunc(pkg, key, fd, fc, o.prop == "" || o.prop == "C11")
+		if fr.Env.useDep {
+			anyDep = true
+		}
 		funcsUnder = append(funcsUnder, fr.Short)
 		for t := range fr.Env.trusted {
 			trusted[t] = true
@@ -193,14 +197,20 @@ func runCheck(o *checkOpts) int {
 			jobs = append(jobs, job{q, fr.Short})
 		}
 	}
+	if anyDep && o.only == "" {
+		for _, q := range lemmaObligations() {
+			jobs = append(jobs, job{q, "prelude"})
+		}
+	}
 	if o.dump != "" {
 		os.MkdirAll(o.dump, 0o755)
 		for _, j := range jobs {
 			name := strings.NewReplacer("/", "_", "*", "", "(", "", ")", "", "#", "__", ":", "_", "[", "_", "]", "").Replace(j.q.Ob.Name)
-			os.WriteFile(filepath.Join(o.dump, name+".smt2"), []byte(smtHeader+preludeSMT+j.q.Text+"(check-sat)\n"), 0o644)
+			os.WriteFile(filepath.Join(o.dump, name+".smt2"), []byte(smtHeader+fullPrelude()+j.q.Text+"(check-sat)\n"), 0o644)
 		}
 	}
 	// discharge
+	pre := fullPrelude()
 	results := make([]*obResult, len(jobs))
 	var wg sync.WaitGroup
 	sem := make(chan struct{}, 12)
@@ -210,7 +220,7 @@ func runCheck(o *checkOpts) int {
 			defer wg.Done()
 			sem <- struct{}{}
 			defer func() { <-sem }()
-			oc := discharge(j.q, preludeSMT, budget, o.tier == "thorough")
+			oc := discharge(j.q, pre, budget, o.tier == "thorough")
 			results[i] = &obResult{Ob: j.q.Ob, Status: oc.Status, By: oc.By, Secs: oc.SolverS, Size: j.q.Size, Outcome: oc}
 		}(i, j)
 	}
